@@ -14,7 +14,7 @@ use std::time::Instant;
 
 /// the last three are characters with irregular case mappings (an upper-case letter without a lower-case form, one that
 /// lower-cases to two characters, one that upper-cases to two): keyword parsers fold case
-pub const CODEC_CLASSES: [&str; 17] = ["a", "0", "9", "-", "=", " ", "\t", "\n", "<", ">", "@", "[", "]", "é", "\u{1d400}", "\u{130}", "ß"];
+pub const CODEC_CLASSES: [&str; 21] = ["a", "0", "9", "-", "=", " ", "\t", "\n", "<", ">", "@", "[", "]", "é", "\u{1d400}", "\u{130}", "ß", "\r", "\u{a0}", ",", ":"];
 
 #[derive(Clone, Copy, PartialEq, Debug)]
 pub enum Group {
@@ -105,6 +105,13 @@ pub fn entry_points() -> Vec<EntryPoint> {
     // debian-control documents
     v.push(ep!("lossy::Control::from_str", Doc, &["lossy::control::Source", "lossy::control::Binary"], |s| debian_control::lossy::Control::from_str(s).map(|c| c.to_string())));
     v.push(ep!("lossy::apt::Source::from_str", Doc, &["lossy::apt::Source"], |s| debian_control::lossy::apt::Source::from_str(s).is_ok()));
+    // (lossy apt Release has no FromStr: its only text route is a paragraph reader plus the derived from_paragraph)
+    v.push(ep!("lossy::apt::Release (paragraph reader + from_paragraph)", Doc, &["lossy::apt::Release"], |s| {
+        use deb822_lossless::FromDeb822Paragraph;
+        let a = deb822_lossless::lossy::Paragraph::from_str(s).ok().map(|p| debian_control::lossy::apt::Release::from_paragraph(&p).is_ok());
+        let b = deb822_lossless::Paragraph::from_str(s).ok().map(|p| debian_control::lossy::apt::Release::from_paragraph(&p).is_ok());
+        (a, b)
+    }));
     v.push(ep!("lossy::apt::Package::from_str", Doc, &["lossy::apt::Package"], |s| debian_control::lossy::apt::Package::from_str(s).is_ok()));
     v.push(ep!("lossy::buildinfo::Buildinfo::from_str", Doc, &["lossy::buildinfo::Buildinfo"], |s| debian_control::lossy::buildinfo::Buildinfo::from_str(s).is_ok()));
     v.push(ep!("lossy::ftpmaster::Removal::from_str", Doc, &["lossy::ftpmaster::Removal"], |s| debian_control::lossy::ftpmaster::Removal::from_str(s).is_ok()));
@@ -242,7 +249,7 @@ fn pumped(g: Group, t: Tier) -> Vec<String> {
     out
 }
 
-const GARBAGE: [&str; 7] = ["", "@ [ ( <", "x\ny", "é ü", "-1", "yes", "a b, c | d (>= 1:2~) [!x] <!y>"];
+const GARBAGE: [&str; 11] = ["", "@ [ ( <", "x\ny", "é ü", "-1", "yes", "a b, c | d (>= 1:2~) [!x] <!y>", "18446744073709551615", "18446744073709551616", "4294967296", "00000000000000000000000001"];
 
 /// typed documents: all-valid baseline with <= k field deviations (absent or one of the garbage values)
 fn typed_docs(ep: &EntryPoint, t: Tier, f: &mut dyn FnMut(String)) {
@@ -356,7 +363,7 @@ impl Prop for C02 {
         "model_checking"
     }
     fn rule(&self, _t: Tier) -> String {
-        "for each of the 60+ text-parsing entry points: (1) every string over its native character-class alphabet up to the length bound (full input trie; states = strings); (2) every sequence of its line templates / tokens up to the sequence bound; (3) pumped inputs w^k for every w up to length 2 (thorough 3) with k in {8, 64} (thorough 512), unbalanced nests, every class symbol repeated 255 / 256 / 257 / 65535 / 65536 / 65537 times (alone and after a valid line) and 20 kB (thorough 100 kB) single lines; (4) for the VCS-location codecs every sequence of 4-6 (thorough 7) tokens of the longest value grammar (url, opening bracket, subpath, closing bracket, -b, branch, blank); (5) for typed documents, the all-valid document built from the type's field table with <= 1 (thorough 2) fields absent or replaced by one of 7 garbage values or up to 6 near-valid values (pieces of the valid values of the field: first / last item, value cut short, value with a trailing comma) and, one field at a time, by every string of <= 3 symbols over 14 (thorough 20) delimiter characters of the typed value grammars (quotes, '=', ',', ':', brackets, '|', '-'), each k-deviation document also without its final newline, with CR LF line ends, and with tab indentation and no blank after the colon; each call runs under catch_unwind with the parser loop budget armed (quadratic envelope), the allocation cap and the stall watchdog, and pumped inputs are also timed; non-trivial = distinct (entry point, non-empty string) of tiers 1-2".into()
+        "for each of the 60+ text-parsing entry points: (1) every string over its native character-class alphabet up to the length bound (full input trie; states = strings); (2) every sequence of its line templates / tokens up to the sequence bound; (3) pumped inputs w^k for every w up to length 2 (thorough 3) with k in {8, 64} (thorough 512), unbalanced nests, every class symbol repeated 255 / 256 / 257 / 65535 / 65536 / 65537 times (alone and after a valid line) and 20 kB (thorough 100 kB) single lines; (4) for the VCS-location codecs every sequence of 4-6 (thorough 7) tokens of the longest value grammar (url, opening bracket, subpath, closing bracket, -b, branch, blank); (5) for typed documents, the all-valid document built from the type's field table with <= 1 (thorough 2) fields absent or replaced by one of 11 garbage values (incl. numbers at and beyond the integer limits) or up to 6 near-valid values (pieces of the valid values of the field: first / last item, value cut short, value with a trailing comma) and, one field at a time, by every string of <= 3 symbols over 14 (thorough 20) delimiter characters of the typed value grammars (quotes, '=', ',', ':', brackets, '|', '-'), each k-deviation document also without its final newline, with CR LF line ends, and with tab indentation and no blank after the colon; each call runs under catch_unwind with the parser loop budget armed (quadratic envelope), the allocation cap and the stall watchdog, and pumped inputs are also timed; non-trivial = distinct (entry point, non-empty string) of tiers 1-2".into()
     }
     fn bounds(&self, t: Tier) -> Value {
         let eps = entry_points();
